@@ -10,7 +10,7 @@ from vlib import core
 
 TSAN = ["-O1", "-g", "-fsanitize=thread", "-pthread"]
 VSBX_ADDR = ["-DVSBX_BASE0_ADDR=0x7e9000000000ull", "-DVSBX_STRIDE_BYTES=0x100000000ull"]
-OPS = "cdmrpgufi"
+OPS = "cdmrpgufia"
 
 
 def build(backend):
@@ -38,8 +38,10 @@ def gen_prog(rng, length):
             op = "g"
         elif r < 0.71:
             op = "u"
-        elif r < 0.83:
+        elif r < 0.80:
             op = "f"
+        elif r < 0.88:
+            op = "a"
         else:
             op = "i"
         prog.append(op + str(i))
